@@ -333,25 +333,30 @@ def replay_large(arg):
     return bad
 
 
+def large_job(d, name, sizes, pats, tags, mode, priors=(0, 1), **kw):
+    """one TLC job on BuildersLarge.tla; mode: "check" (invariants), "emit" (CASE lines), "check+emit" """
+    lit = lambda xs: "{" + ", ".join(str(x) for x in xs) + "}"
+    fams = "{" + ", ".join('"%s"' % f for f in FAMILIES) + "}"
+    consts = dict(Sizes=lit(sizes), Families=fams, PatIds=lit(pats), Priors=lit(priors), Tags=tags, DenseMax="40",
+                  Emit="FALSE" if mode == "check" else "TRUE")
+    cfg = core.write_cfg(os.path.join(d, name + ".cfg"), constants=consts,
+                         invariants=(LINVS if mode != "emit" else []) + (["EmitInv"] if mode != "check" else []),
+                         properties=["CallerUnchanged"] if mode != "emit" else [])
+    return dict(module="BuildersLarge", cfg=os.path.basename(cfg), cwd=d,
+                label="large families %s n=%s patterns %s" % (mode, lit(sizes) if len(sizes) < 6 else
+                                                            "%d..%d" % (sizes[0], sizes[-1]), lit(pats)),
+                timeout=1500, **kw)
+
+
 def large_jobs(ctx, d):
     """TLC jobs on BuildersLarge.tla: (i) the large sizes, one job per size (closed forms checked and emitted);
     (ii) every size 2..16 (40), every family / pattern / prior / container tag, with the full-sum cross-checks;
     (iii) the emitter of the small replayed sizes"""
-    lit = lambda xs: "{" + ", ".join(str(x) for x in xs) + "}"
-    fams = "{" + ", ".join('"%s"' % f for f in FAMILIES) + "}"
     allp = list(range(1, NPATS + 1))
     jobs, emit = [], []
 
-    def job(name, sizes, pats, tags, mode, priors=(0, 1), **kw):
-        consts = dict(Sizes=lit(sizes), Families=fams, PatIds=lit(pats), Priors=lit(priors), Tags=tags, DenseMax="40",
-                      Emit="FALSE" if mode == "check" else "TRUE")
-        cfg = core.write_cfg(os.path.join(d, name + ".cfg"), constants=consts,
-                             invariants=(LINVS if mode != "emit" else []) + (["EmitInv"] if mode != "check" else []),
-                             properties=["CallerUnchanged"] if mode != "emit" else [])
-        jobs.append(dict(module="BuildersLarge", cfg=os.path.basename(cfg), cwd=d,
-                         label="large families %s n=%s patterns %s" % (mode, lit(sizes) if len(sizes) < 6 else
-                                                                     "%d..%d" % (sizes[0], sizes[-1]), lit(pats)),
-                         timeout=1500, **kw))
+    def job(name, sizes, pats, tags, mode, **kw):
+        jobs.append(large_job(d, name, sizes, pats, tags, mode, **kw))
         if mode != "check":
             emit.append(len(jobs) - 1)
     for q, n in enumerate(LARGE_SIZES):
